@@ -32,15 +32,21 @@ def conservation_cases(seed=0):
     bad = []
     n = 0
     with tempfile.TemporaryDirectory() as td:
-        for ci, (n_term, screening, cur_units) in enumerate(((2, False, "uA"), (3, False, "uA"), (2, True, "uA"), (2, False, "mA"), (3, False, "nA"))):
+        for ci, (n_term, screening, cur_units) in enumerate(((2, False, "uA"), (3, False, "uA"), (2, True, "uA"), (2, False, "mA"), (3, False, "nA"), (3, False, "switch"))):
+            switching = cur_units == "switch"
+            cur_units = "uA" if switching else cur_units
             dev = make_device(n_term=n_term)
             mesh = dev.mesh
             I = {"source": 3.0, "drain": -3.0} if n_term == 2 else {"source": 2.0, "drain": -0.5, "top": -1.5}
             fac = {"uA": 1.0, "mA": 1e-3, "nA": 1e3}[cur_units]
             Iu = {k: v * fac for k, v in I.items()}
+            if switching:
+                # time-dependent dict in which a terminal drops out: an unlisted terminal carries zero current
+                def Ifun(t):
+                    return {"source": 2.0, "top": -2.0} if t < 0.4 else {"source": 2.0, "drain": -2.0}
             opts = tdgl.SolverOptions(solve_time=1.0, save_every=20, include_screening=screening, current_units=cur_units, output_file=os.path.join(td, f"c{ci}.h5"))
             try:
-                sol = tdgl.solve(dev, opts, applied_vector_potential=0.1, terminal_currents=Iu)
+                sol = tdgl.solve(dev, opts, applied_vector_potential=0.1, terminal_currents=(Ifun if switching else Iu))
             except Exception as e:  # noqa
                 bad.append(dict(what="balanced terminal currents rejected / run failed", currents=Iu, units=cur_units, error=f"{type(e).__name__}: {e}"))
                 continue
@@ -56,6 +62,9 @@ def conservation_cases(seed=0):
                     g = f["data"][k]
                     if int(g.attrs["step"]) == 0:
                         continue
+                    if switching:
+                        Iu = dict(source=0.0, drain=0.0, top=0.0)
+                        Iu.update(Ifun(float(g.attrs["time"])))
                     J = np.array(g["supercurrent"]) + np.array(g["normal_current"])
                     div = (D @ J) * mesh.areas
                     n += 1
@@ -73,7 +82,8 @@ def conservation_cases(seed=0):
                         got = div[tcells[t.name]].sum() * K0 * xi / 4.0
                         if abs(got - Iu[t.name]) > 1e-6 * max(1.0, abs(Iu[t.name])) * 1.0 and abs(got - Iu[t.name]) > 1e-6 * abs(Iu[t.name]):
                             bad.append(dict(what="current entering through a terminal differs from the requested current", terminal=t.name, requested=Iu[t.name], got=float(got), units=cur_units,
-                                            case=ci, step=int(g.attrs["step"])))
+                                            case=ci, step=int(g.attrs["step"]), time=float(g.attrs["time"]),
+                                            currents=("t<0.4: source=2, top=-2; then source=2, drain=-2 (unlisted terminal = 0)" if switching else Iu)))
                             break
     logging.disable(logging.NOTSET)
     return bad, n
